@@ -12,7 +12,7 @@ MANIFEST = {
     'text': 'Fixed workbooks (range/name/array-formula chain, two sheets, two books, array formula anchored outside the requested cells, whole-column reference) and a generated '
             'sub-family are written as .xlsx files; for every non-empty subset of the candidate outputs (all formula cells plus referenced ranges, up to 255 subsets per workbook) '
             'a model is built with from_ranges(...).finish() and calculated; each requested output must equal the value in the fully loaded model and in the reference evaluator. '
-            'complete() and finish() are then applied again and the node set, edge set and results must be unchanged. Two more fixed workbooks give two books a sheet of the same name with different used extents, in both file-name orders; array-formula blocks reaching beyond the used area of the sheet; a lazily loaded linked book with one reference to a sheet it does not have and valid references sorting before and after it.',
+            'complete() and finish() are then applied again and the node set, edge set and results must be unchanged. Two more fixed workbooks give two books a sheet of the same name with different used extents, in both file-name orders; array-formula blocks reaching beyond the used area of the sheet; a lazily loaded linked book with one reference to a sheet it does not have and valid references sorting before and after it.' ' Later additions: spill blocks beyond the used area, a range overlapped by four array blocks, constants beyond 15 significant digits, numeric links across three books in both directions, dangling sheets, a sheet title whose upper case changes length, whole-column readers on both sides of a rectangle (colskip; four at a time, fresh child per case).',
     'note': 'Trusted: ref/wbeval.py; the fully loaded model is a second reference.',
 }
 RULE = 'case = (workbook, output subset); non-trivial = partial model built and calculated; distinct = case key'
